@@ -59,7 +59,7 @@ def value_to_json(value: object) -> object:
         try:
             value.encode("utf-8")
         except UnicodeEncodeError:
-            return {"string": repr(value)}
+            return {"string": ascii(value)}
         return value
     if value == ...:
         return {"type": "ellipsis"}
